@@ -598,6 +598,12 @@ class ExecBase:
             if iv.tag == "any":
                 return z3.And(recog("s")(iv.e), z3.Select(c.e, acc("s")(iv.e)) != ABSENT)
             return z3.Select(c.e, iv.e) != ABSENT
+        if c.tag == "sti":
+            if iv.tag == "i":
+                return z3.Select(c.e, iv.e)
+            if iv.tag == "any":
+                return z3.And(recog("i")(iv.e), z3.Select(c.e, acc("i")(iv.e)))
+            return z3.BoolVal(False)
         if c.tag == "st":
             if iv.tag == "any":
                 return z3.And(recog("s")(iv.e), z3.Select(c.e, acc("s")(iv.e)))
